@@ -135,7 +135,7 @@ class TreeOpts:
         bag_ranges=("N", "S", "N2"),
         flavours=FLAVOURS,
         affine=True,
-        cat_cols=("s", "s", "b"),
+        cat_cols=("s",),
         flows=True,
     ):
         self.max_depth = max_depth
